@@ -1407,9 +1407,15 @@ vnacal_t *vnacal_load(const char *pathname,
     }
     yaml_parser_set_input_file(&parser, fp);
     if (!yaml_parser_load(&parser, &vls.vls_document)) {
-	_vnacal_error(vcp, VNAERR_SYNTAX, "%s (line %ld) error: %s",
-		vcp->vc_filename, (long)parser.problem_mark.line + 1,
-		parser.problem);
+	if (parser.error == YAML_MEMORY_ERROR) {
+	    errno = ENOMEM;
+	    _vnacal_error(vcp, VNAERR_SYSTEM, "yaml_parser_load: %s: %s",
+		    vcp->vc_filename, strerror(errno));
+	} else {
+	    _vnacal_error(vcp, VNAERR_SYNTAX, "%s (line %ld) error: %s",
+		    vcp->vc_filename, (long)parser.problem_mark.line + 1,
+		    parser.problem);
+	}
 	yaml_parser_delete(&parser);
 	goto error;
     }
